@@ -44,6 +44,9 @@ pub proof fn bn_lemma_convert_shl_@T@(d: @T@, s: @T@)
         assert(y << 1@T@ == y + y) by (bit_vector) requires y <= @HALFM1@@T@;
     }
 }
+"""
+
+LEMMA_OR = r"""
 //! proof bn_lemma_convert_or_@T@
 // OR of disjoint bit ranges is addition
 pub proof fn bn_lemma_convert_or_@T@(x: @T@, d: @T@, s: @T@, w: nat)
@@ -159,6 +162,9 @@ pub proof fn bn_lemma_convert_sor_@T@(x: @T@, du: @U@, s: @U@)
 {
     assert(((x | ((du as @T@) << s)) as @U@) == (x as @U@) | (du << s)) by (bit_vector) requires s < @TB@@U@;
 }
+"""
+
+LEMMAS_S_SIGN = r"""
 //! proof bn_lemma_convert_sign_@T@
 pub proof fn bn_lemma_convert_sign_@T@(x: @T@)
     ensures (0 > x) == ((x as @U@) >= @HALF@@U@), x >= 0 ==> (x as @U@) as int == x as int,
@@ -385,6 +391,9 @@ pub proof fn bn_lemma_convert_sand_@T@(x: @T@, nd: @U@, s: @U@)
 {
     assert(!((x & !((nd as @T@) << s)) as @U@) == (!(x as @U@)) | (nd << s)) by (bit_vector) requires s < @TB@@U@;
 }
+"""
+
+LEMMA_SNOT = r"""
 //! proof bn_lemma_convert_snot_@T@
 pub proof fn bn_lemma_convert_snot_@T@(x: @T@)
     ensures (!(x as @U@)) as int == @U@::MAX as int - (x as @U@) as int, (-1@T@) as @U@ == @U@::MAX
@@ -938,6 +947,120 @@ fn From_bool__from(small: bool) -> /*@{*/(r: /*}@*/Self/*@{*/)/*}@*/
 }
 """
 
+# ---- usize / isize: the width is symbolic in Verus (usize::BITS is 32 or 64).  The templates are instantiated with
+# the width marker `§`, which inst() turns into `usize::BITS` (as int / nat / usize, depending on the context); the
+# few lemmas whose bit_vector proofs mention width-dependent literals are written out here, one guarded assert per width.
+LEMMAS_U_USIZE = r"""
+//! proof bn_lemma_convert_pow2_usize
+pub proof fn bn_lemma_convert_pow2_usize()
+    ensures pow2(usize::BITS as nat) == usize::MAX as int + 1, usize::BITS == 32 || usize::BITS == 64,
+        usize::BITS == 64 ==> usize::MAX as int + 1 == 0x1_0000_0000_0000_0000, usize::BITS == 32 ==> usize::MAX as int + 1 == 0x1_0000_0000,
+        isize::MAX as int * 2 + 1 == usize::MAX as int, isize::MIN as int == -(isize::MAX as int) - 1, isize::BITS == usize::BITS
+{
+    lemma2_to64(); lemma2_to64_rest();
+}
+//! proof bn_lemma_convert_shl_usize
+// d << s == d * 2^s when it fits (no multiplication inside bit_vector)
+pub proof fn bn_lemma_convert_shl_usize(d: usize, s: usize)
+    requires usize::BITS > s as int, d as int * pow2(s as nat) <= usize::MAX
+    ensures (d << s) as int == d as int * pow2(s as nat)
+    decreases s
+{
+    bn_lemma_convert_pow2_usize();
+    if s == 0 {
+        lemma2_to64();
+        assert(d << 0usize == d) by (bit_vector);
+    } else {
+        let s1 = (s - 1) as usize;
+        lemma_pow2_unfold(s as nat);
+        lemma_pow2_pos(s1 as nat);
+        assert(d as int * pow2(s as nat) == 2 * (d as int * pow2(s1 as nat))) by (nonlinear_arith) requires pow2(s as nat) == 2 * pow2(s1 as nat);
+        bn_lemma_convert_shl_usize(d, s1);
+        let y = d << s1;
+        assert(0 < s < (usize::BITS as usize) && s1 == (s - 1) as usize ==> d << s == (d << s1) << 1usize) by (bit_vector);
+        assert(usize::BITS == 64 ==> ((y as int) <= 0x7fff_ffff_ffff_ffff ==> (y << 1usize) as int == 2 * (y as int))) by (bit_vector);
+        assert(usize::BITS == 32 ==> ((y as int) <= 0x7fff_ffff ==> (y << 1usize) as int == 2 * (y as int))) by (bit_vector);
+    }
+}
+"""
+
+LEMMA_OR_USIZE = r"""
+//! proof bn_lemma_convert_or_usize
+// OR of disjoint bit ranges is addition
+pub proof fn bn_lemma_convert_or_usize(x: usize, d: usize, s: usize, w: nat)
+    requires usize::BITS > s as int, s + w <= usize::BITS, (x as int) < pow2(s as nat), (d as int) < pow2(w)
+    ensures (x | (d << s)) as int == x as int + d as int * pow2(s as nat),
+        x as int + d as int * pow2(s as nat) < pow2(s as nat + w)
+{
+    lemma_pow2_adds(s as nat, w);
+    lemma_pow2_pos(s as nat);
+    bn_lemma_convert_pow2_usize();
+    if s + w < usize::BITS { lemma_pow2_strictly_increases(s as nat + w, usize::BITS as nat); }
+    assert(d as int * pow2(s as nat) <= (pow2(w) - 1) * pow2(s as nat)) by (nonlinear_arith) requires (d as int) < pow2(w), pow2(s as nat) > 0;
+    assert((pow2(w) - 1) * pow2(s as nat) == pow2(s as nat) * pow2(w) - pow2(s as nat)) by (nonlinear_arith);
+    assert(d as int * pow2(s as nat) >= 0) by (nonlinear_arith) requires d >= 0, pow2(s as nat) > 0;
+    bn_lemma_convert_shl_usize(d, s);
+    let y = d << s;
+    assert(x >> s == 0) by {
+        vstd::bits::lemma_usize_shr_is_div(x, s);
+        lemma_basic_div(x as int, pow2(s as nat) as int);
+    }
+    assert((usize::BITS as usize) > s && x >> s == 0 && y == d << s ==> (x | y) as int == x as int + y as int) by (bit_vector);
+}
+"""
+
+LEMMAS_S_ISIZE = r"""
+//! proof bn_lemma_convert_sign_isize
+pub proof fn bn_lemma_convert_sign_isize(x: isize)
+    ensures (0 > x) == (2 * ((x as usize) as int) >= usize::MAX as int + 1), x >= 0 ==> (x as usize) as int == x as int,
+        0 > x ==> (x as usize) as int == x as int + usize::MAX as int + 1
+{
+    bn_lemma_convert_pow2_usize();
+    assert(usize::BITS == 64 ==> ((x as int) == (if (x as usize) as int >= 0x8000_0000_0000_0000 { (x as usize) as int - 0x1_0000_0000_0000_0000 } else { (x as usize) as int }))) by (bit_vector);
+    assert(usize::BITS == 32 ==> ((x as int) == (if (x as usize) as int >= 0x8000_0000 { (x as usize) as int - 0x1_0000_0000 } else { (x as usize) as int }))) by (bit_vector);
+}
+//! proof bn_lemma_convert_narrow_isize
+// digit -> narrower signed primitive -> digit round trip (the `small`/`trunc` test of try_from_buint!)
+pub proof fn bn_lemma_convert_narrow_isize(x: $D)
+    ensures (((x as isize) as $D) == x && (x as isize) >= 0) ==> (x as isize) as int == x as int,
+        !(((x as isize) as $D) == x && (x as isize) >= 0) ==> x as int > isize::MAX as int
+{
+    bn_lemma_convert_pow2_usize();
+    assert((((x as isize) as $D) == x && (x as isize) >= 0) ==> (x as isize) as int == x as int) by (bit_vector);
+    assert(usize::BITS == 64 ==> (!(((x as isize) as $D) == x && (x as isize) >= 0) ==> (x as u128) > 0x7fff_ffff_ffff_ffffu128)) by (bit_vector);
+    assert(usize::BITS == 32 ==> (!(((x as isize) as $D) == x && (x as isize) >= 0) ==> (x as u128) > 0x7fff_ffffu128)) by (bit_vector);
+}
+"""
+
+LEMMAS_S2_ISIZE = r"""
+//! proof bn_lemma_convert_snot_isize
+pub proof fn bn_lemma_convert_snot_isize(x: isize)
+    ensures (!(x as usize)) as int == usize::MAX as int - (x as usize) as int, (-1isize) as usize == usize::MAX
+{
+    bn_lemma_convert_pow2_usize();
+    let y = x as usize;
+    assert(usize::BITS == 64 ==> ((!y) as int == 0xffff_ffff_ffff_ffff - (y as int))) by (bit_vector);
+    assert(usize::BITS == 32 ==> ((!y) as int == 0xffff_ffff - (y as int))) by (bit_vector);
+    assert(usize::BITS == 64 ==> (((-1isize) as usize) as int == 0xffff_ffff_ffff_ffff)) by (bit_vector);
+    assert(usize::BITS == 32 ==> (((-1isize) as usize) as int == 0xffff_ffff)) by (bit_vector);
+}
+"""
+
+NARROW2_ISIZE = r"""
+//! proof bn_lemma_convert_narrow2_isize
+// digit -> narrower signed primitive -> digit (sign-extending) round trip of int_try_from_bint! (64-bit digits, 32-bit isize)
+pub proof fn bn_lemma_convert_narrow2_isize(x: $D)
+    requires $DB > isize::BITS
+    ensures (((x as isize) as $D) == x) ==> (x as isize) as int == bn_sd(x),
+        !(((x as isize) as $D) == x) ==> (bn_sd(x) > isize::MAX as int || (isize::MIN as int) > bn_sd(x))
+{
+    bn_lemma_convert_pow2_usize();
+    bn_lemma_cast_i64(x);
+    assert(usize::BITS == 32 ==> (${DB}u32 <= 32u32 || ((((x as isize) as $D) == x) ==> ((x as isize) as i128 == (x as $SD) as i128)))) by (bit_vector);
+    assert(usize::BITS == 32 ==> (${DB}u32 <= 32u32 || (!(((x as isize) as $D) == x) ==> ((x as $SD) as i128 > 0x7fff_ffffi128 || -0x8000_0000i128 > (x as $SD) as i128)))) by (bit_vector);
+}
+"""
+
 ISNEG = r"""
 //! raw bn_convert_isneg_@T@ @DIGITS@
 // primitive method without a vstd specification (the prelude specifies it for the signed digit type only)
@@ -947,9 +1070,26 @@ pub assume_specification[ @T@::is_negative ](a: @T@) -> (r: bool)
 
 
 def inst(t, T, TB, U=None):
+    if TB == 'sz':
+        return inst_usize(t, T, U)
     t = t.replace('@TB@', str(TB)).replace('@T@', T).replace('@HALFM1@', HALFM1[TB]).replace('@HALF@', HALF[TB])
     if U is not None:
         t = t.replace('@U@', U)
+    return t
+
+
+def inst_usize(t, T, U):
+    """usize / isize instance of a template: the width is the symbolic `usize::BITS`"""
+    assert '@HALF' not in t, 'width-dependent literal: write the usize instance by hand'
+    t = t.replace('@TB@', '§').replace('@T@', T)
+    if U is not None:
+        t = t.replace('@U@', U)
+    t = t.replace('bn_lemma_convert_pow2_§', 'bn_lemma_convert_pow2_usize')
+    t = t.replace('§usize', '(usize::BITS as usize)')          # typed literal `@TB@@T@` inside bit_vector asserts
+    t = t.replace('pow2(§)', 'pow2(usize::BITS as nat)')
+    t = t.replace('lemma_pow2_strictly_increases(§,', 'lemma_pow2_strictly_increases(usize::BITS as nat,')
+    t = re.sub(r'(lemma_pow2_strictly_increases\([^;]*?), §\)', r'\1, usize::BITS as nat)', t)
+    t = t.replace('§', 'usize::BITS')
     return t
 
 
@@ -970,53 +1110,67 @@ def want(name):
 NOTE = '// GENERATED by overlay/scripts/gen_convert.py -- re-run the script instead of editing.\n'
 w('//! scope convert.*\n//! raw bn_convert_note\n' + NOTE)
 # ---- lemma library (instances per primitive type)
+UTZ = UT + [('usize', 'sz')]
+STZ = ST + [('isize', 'usize', 'sz')]
 for T, TB in UT:
     w(inst(LEMMAS_U, T, TB))
-for T, U, TB in ST:
+w(LEMMAS_U_USIZE)
+for T, TB in UT:
+    w(inst(LEMMA_OR, T, TB))
+w(LEMMA_OR_USIZE)
+for T, U, TB in STZ:
     w(inst(LEMMAS_S, T, TB, U))
 for T, U, TB in ST:
+    w(inst(LEMMAS_S_SIGN, T, TB, U))
+w(LEMMAS_S_ISIZE)
+for T, U, TB in STZ:
     ds = [d for d in ALLD if d != DIGIT_SD.get(T)]
     if T != 'i8':   # i8::is_negative is already specified by unit slices (same contract)
         w(ISNEG.replace('@T@', T).replace('@DIGITS@', '[digits=' + ','.join(ds) + ']'))
     w(inst(LEMMAS_S2, T, TB, U))
-    if T != 'i128':
-        w(inst(NARROW2, T, TB))
+    if TB == 'sz':
+        w(LEMMAS_S2_ISIZE)
+        w(NARROW2_ISIZE)
+    else:
+        w(inst(LEMMA_SNOT, T, TB, U))
+        if T != 'i128':
+            w(inst(NARROW2, T, TB))
 w(PAD)
 # ---- item 3: TryFrom<$BUint<N>> for primitive
-for T, TB in UT:
+for T, TB in UTZ:
     if want('bu_to_' + T):
         w(inst(BU_TO_U, T, TB))
-for T, U, TB in ST:
+for T, U, TB in STZ:
     if want('bu_to_' + T):
         w(inst(BU_TO_S, T, TB, U))
 # ---- item 6: TryFrom<$BInt<N>> for primitive
-for T, TB in UT:
+for T, TB in UTZ:
     if want('bi_to_' + T):
         w(inst(BI_TO_U, T, TB))
-for T, U, TB in ST:
+for T, U, TB in STZ:
     if want('bi_to_' + T):
         call = 'bn_lemma_convert_narrow2_%s(int__.bits.digits[0]);' % T if T != 'i128' else ''
         w(inst(BI_TO_S, T, TB, U).replace('@NARROW2CALL@', call))
 # ---- items 1, 2: From<uN> / TryFrom<iN> for $BUint
 w(MOD_LE)
 w(ZERO_DIGITS)
-for T, TB in UT:
+for T, TB in UTZ:
     w(inst(LEMMAS_FROM_U, T, TB))
-for T, TB in UT:
+for T, TB in UTZ:
     if want('bu_from_' + T):
         w(inst(BU_FROM_U, T, TB))
-for T, U, TB in ST:
+for T, U, TB in STZ:
     if want('bu_from_' + T):
         w(inst(BU_TRYFROM_S, T, TB, U))
 # ---- items 4, 5: From<iN> / From<uN> for $BInt
 w(TCD)
 w(NOT_I)
-for T, U, TB in ST:
+for T, U, TB in STZ:
     w(inst(LEMMAS_FROM_S, T, TB, U))
-for T, U, TB in ST:
+for T, U, TB in STZ:
     if want('bi_from_' + T):
         w(inst(BI_FROM_S, T, TB, U))
-for T, TB in UT:
+for T, TB in UTZ:
     if want('bi_from_' + T):
         w(inst(BI_FROM_U, T, TB))
 # ---- item 7: forwarders to cast_from
